@@ -356,3 +356,15 @@ Fixpoint rtrace (dd : item -> item -> bool) (r : res rosomaxa) (ops : list rop) 
   end.
 Definition ro_new (c : rconfig) : rosomaxa := mkRo c [] (PInitial 0).
 Definition run_phase (c : rconfig) (ops : list rop) := rtrace dedupf (Ok (ro_new c)) ops.
+
+(* ---------- specification predicate used by Properties/C19.v (no proofs here) ---------- *)
+(* unique keys; every node is filed under its own coordinate, has weights of the network dimension, the capacity handed out by the
+   storage factory, and holds at most that many individuals *)
+Definition wellformed (n : net) : Prop :=
+  NoDup (map fst (nodes n)) /\
+  forall c nd, In (c, nd) (nodes n) ->
+    n_c nd = c /\ n_dim nd = dim n /\ n_cap nd = fcap n /\ (length (n_st nd) <= n_cap nd)%nat.
+(* decimation steps, kept coordinates and coordinate map of Network::compact on n *)
+Definition compact_decims (n : net) : Z * Z := decims (shape (nodes n)) 3 4.
+Definition compact_keeps (n : net) (c : coord) : bool := negb (decimated (fst (compact_decims n)) (snd (compact_decims n)) c).
+Definition compact_map (n : net) (c : coord) : coord := remap_coord (shape (nodes n)) (fst (compact_decims n)) (snd (compact_decims n)) c.
